@@ -28,6 +28,7 @@ static long ent[MAXP][MAXW][MAXL], ext_[MAXP][MAXW][MAXL]; static int cnt[MAXP][
 static int g_n;
 static int cb_count; static long cb_stamp; static int cb_in_add; static volatile int in_add;
 static vdc_t *g_A;
+static parsec_context_t *g_parsec = NULL;
 static int idle_selects = 0;
 
 void vt_enter(int p, int w, int k) { long s = wr_stamp(); if (p < MAXP && w < MAXW && k < MAXL) { ent[p][w][k] = s; __sync_add_and_fetch(&cnt[p][w][k], 1); } }
@@ -156,13 +157,13 @@ typedef struct { int bounded; int maxdev; } leg_arg_t;
 static void leg_orders(int slice, int nslices, void *arg_)
 {
     leg_arg_t *arg = (leg_arg_t *)arg_;
-    parsec_context_t *parsec = init_ctx(1, NULL);
+    parsec_context_t *parsec = g_parsec ? g_parsec : init_ctx(1, NULL);   /* g_parsec: initialised once by the parent and inherited */
     hs_install(parsec); hs_module.module.select = c15_select;
     hs_explorer_t *ex = (hs_explorer_t *)malloc(sizeof(*ex));
     int idx = 0; cfg_t c; memset(&c, 0, sizeof(c)); c.threads = 1;
     if (!arg->bounded) {
-        int ns = wr_thorough ? NSHAPES_T : NSHAPES_Q;
         for (int n = 1; n <= 3; n++) {
+            int ns = wr_thorough ? NSHAPES_T : (n == 3 ? NSHAPES_Q - 1 : NSHAPES_Q);   /* quick: 6 shapes for n<=2, 5 for n=3 */
             int tot = 1; for (int i = 0; i < n; i++) tot *= ns;
             for (int a = 0; a < tot; a++) for (int mode = 0; mode < 3; mode++) {
                 if ((idx++ % nslices) != slice) continue;
@@ -182,7 +183,6 @@ static void leg_orders(int slice, int nslices, void *arg_)
     }
 out:
     hs_uninstall(parsec);
-    parsec_fini(&parsec);
 }
 
 static const char *SCHEDS[] = { NULL, "ap", "ll" };
@@ -254,8 +254,9 @@ int main(int argc, char **argv)
         return wr_finish();
     }
     leg_arg_t a1 = { 0, -1 }, a2 = { 1, wr_thorough ? 2 : 1 };
-    if (!only || !strcmp(only, "orders")) wr_run_legs("orders", jobs, leg_orders, &a1, 30, aux);
-    if (!only || !strcmp(only, "bounded")) wr_run_legs("bounded", jobs > 12 ? 12 : jobs, leg_orders, &a2, 30, aux);
-    if (!only || !strcmp(only, "threads")) wr_run_legs("threads", 9, leg_threads, NULL, 30, aux);
+    if (!only || !strcmp(only, "threads")) wr_run_legs("threads", 9, leg_threads, NULL, 90, aux);
+    g_parsec = init_ctx(1, NULL);      /* once, in the parent: the forked hsched workers inherit the one-stream context */
+    if (!only || !strcmp(only, "bounded")) wr_run_legs("bounded", jobs > 6 ? 6 : jobs, leg_orders, &a2, 60, aux);
+    if (!only || !strcmp(only, "orders")) wr_run_legs("orders", jobs, leg_orders, &a1, 60, aux);
     return wr_finish();
 }
